@@ -1,5 +1,6 @@
 import Cell2v.Driver.Util
 import Cell2v.Model.Events
+import Cell2v.Model.EventsOwner
 /-!
 Model driver for C17 (event centres).
 
@@ -20,7 +21,10 @@ Line protocol
   drain c=1 n=3               owner of centre 1 receives ≤ 3 events and DoEvent()s them
   gfill e=2 a=7 n=1005        n global publications
   q c=1                       queue length
-  rs n=5 | conc pubs=3 n=20 cs=2 | concsub cs=2 rounds=200   run-service / concurrent-publisher / concurrent-subscriber cases
+  rs n=5 burst=3 | conc pubs=3 n=20 cs=2 | concsub cs=2 rounds=200   run-service / concurrent-publisher / concurrent-subscriber cases
+     (rs: n publications delivered by a real StandardRunService; burst>0: Stop from outside while the owner is stuck in a
+      listener and `burst` publications are still queued.  The model's answer is computed by `Model/EventsOwner.lean`.)
+  concfull pubs=4 free=2      `pubs` goroutines publish one global event each to a centre with `free` free queue slots
   ops: `;`-separated  s.c.e.t.g | u.c.e.t | f.c.e.fn | p.c.e.args | g.e.args | c.c | gs.e.c | gu.e.c | gsh.e.c.t
        | sr.c.e.t.r | ur.c.e.fn.r   (light centre SubscribeWithReceiver / UnsubscribeWithReceiver, receiver r ≥ 1)
        (args `_`-separated; gs/gu = direct Subscribe/Unsubscribe(name, centre) on the exported global centre;
@@ -98,7 +102,21 @@ def runCall (w : World) (ops : List SOp) (g : List GTok) : World × String :=
   let w' := runFuel fuel (call { w with out := [] } ops g)
   (w', if w'.out.isEmpty then "-" else showOut w'.out)
 
-def rsObs (n : Nat) : String := s!"got={n} owner=1 dereg=1"
+/-- the model's answer for `rs`: the scenario is played through `EventsOwner.run` -/
+def rsObs (n burst : Nat) : String :=
+  let s := EventsOwner.run {} (EventsOwner.rsActs n burst)
+  let s2 := EventsOwner.act s (.gpub (.ext 0) (Int.ofNat n))
+  let got := EventsOwner.countUp (EventsOwner.delivered s)
+  let owner := s.log.all (fun p => p.1 == EventsOwner.G.owner)
+  let dereg := s2.queue.length ≤ s.queue.length && s2.log.length == s.log.length
+  let late := (s.log.filter (fun p => p.2 ≤ -2)).length
+  s!"got={got} owner={if owner then 1 else 0} dereg={if dereg then 1 else 0}" ++ (if burst > 0 then s!" late={late}" else "")
+
+/-- the model's answer for `concfull` -/
+def fullObs (pubs free : Nat) : String :=
+  let s := EventsOwner.run { queue := List.replicate (EventsOwner.cap - free) (-1), listening := true } (EventsOwner.fullActs pubs)
+  let o := EventsOwner.run { listening := true } (EventsOwner.fullActs pubs)
+  s!"q={s.queue.length} blocked=0 other={o.queue.length}"
 def concObs (pubs n cs : Nat) : String :=
   " ".intercalate ((List.range cs).map (fun i => s!"c{i}={pubs * n}")) ++ " fifo=1"
 
@@ -138,7 +156,11 @@ def stepLine (s : St) (line : String) (g : List GTok) : St × String :=
     match kvNat ws "c" with
     | some c => (s, match s.w.cs[c]? with | some ct => s!"q={ct.queue.length}" | none => "bad")
     | none => (s, "bad-op")
-  | some "rs" => (s, rsObs ((kvNat ws "n").getD 0))
+  | some "rs" => (s, rsObs ((kvNat ws "n").getD 0) ((kvNat ws "burst").getD 0))
+  | some "concfull" =>
+    let pubs := (kvNat ws "pubs").getD 0
+    let free := (kvNat ws "free").getD 0
+    if pubs < 1 || pubs > 16 || free > 999 then (s, "bad-op") else (s, fullObs pubs free)
   | some "conc" => (s, concObs ((kvNat ws "pubs").getD 0) ((kvNat ws "n").getD 0) ((kvNat ws "cs").getD 0))
   | some "concsub" => (s, "lost=0")
   | some "concreg" => (s, "missed=0")
@@ -465,8 +487,32 @@ def specLine (m : Mon) (line : String) : Mon × String :=
         | none => (m, "ok")
       | none => (m, "ok")
     | some "rs" =>
-      if obs == rsObs ((kvNat ws "n").getD 0) then (m, "ok")
-      else (m, s!"VIOLATION C17/runservice-delivery {op} got {obs}")
+      -- the property, on the implementation's own report: all n publications delivered in order, every invocation on the
+      -- loop goroutine, nothing delivered once Stop was called (queued events included), deregistered by Stop
+      let n := (kvNat ws "n").getD 0
+      let burst := (kvNat ws "burst").getD 0
+      let ow := words obs
+      if (kv ow "stopwait").isSome then
+        (m, s!"VIOLATION C17/reentrant-blocked {op}: Stop (Clear) called from outside did not return while a listener of the centre was running, {obs}")
+      else if kvNat ow "owner" != some 1 then
+        (m, s!"VIOLATION C17/listener-off-owner-goroutine {op}: a listener of a run-service centre ran on a goroutine other than the service's loop, {obs}")
+      else if burst > 0 && kvNat ow "late" != some 0 then
+        (m, s!"VIOLATION C17/delivered-after-stop {op}: events still queued when Stop was called reached the listener, {obs}")
+      else if kvNat ow "got" != some n || kvNat ow "dereg" != some 1 || ow.length != (if burst > 0 then 4 else 3) then
+        (m, s!"VIOLATION C17/runservice-delivery {op} got {obs}")
+      else (m, "ok")
+    | some "concfull" =>
+      let pubs := (kvNat ws "pubs").getD 0
+      let free := (kvNat ws "free").getD 0
+      let ow := words obs
+      if obs == "bad-op" then (m, "ok")
+      else if kvNat ow "blocked" != some 0 then
+        (m, s!"VIOLATION C17/global-publish-blocked {op}: a global publication did not return although the queue was merely full, {obs}")
+      else if kvNat ow "q" != some (min 999 (999 - free + pubs)) then
+        (m, s!"VIOLATION C17/queue-length {op}: {obs}, expected q={min 999 (999 - free + pubs)}")
+      else if kvNat ow "other" != some pubs then
+        (m, s!"VIOLATION C17/global-missed-centre {op}: the second centre received {obs} of {pubs} publications")
+      else (m, "ok")
     | some "concreg" =>
       if obs == "missed=0" then (m, "ok")
       else (m, s!"VIOLATION C17/global-missed-centre {op}: a centre whose GSubscribe had returned did not receive the next global publication, {obs}")
